@@ -18,6 +18,7 @@ import Proofs.Lemmas.TlshFinal
 import Proofs.Lemmas.Nilsimsa
 import Model.Objects
 import Proofs.Lemmas.ObjectsSound
+import Proofs.Lemmas.TlshCall
 namespace Proofs.C19
 open Model Model.Tlsh Proofs.Lemmas.Tlsh
 
@@ -338,6 +339,15 @@ theorem tlsh_call_ignores_history (lcap : Nat → Nat) (s : TlshO.State) (hist :
     | nil => intro s; rfl
     | cons op ops ih => intro s; rw [List.foldl_cons, ih, Lemmas.ObjectsSound.tlsh_cfg]
   rw [tlsh_call_ignores_state, hc]
+
+open Model.Objects in
+/-- … and that result is the ONE-SHOT function `Model.Tlsh.tlsh` of the configuration and the call's own arguments (the function
+    the `tlsh` / `tlsh.calls` lines compare with the real code, which `tlsh_refines` equates with Spec.Tlsh): the digest bytes,
+    None, or the exception — for every valid configuration, every state of the object, every input and force flag.
+    (`Proofs.Lemmas.TlshCall.resOf` maps `.ok (some d)` / `.ok none` / `.error e` to bytes / None / the exception.) -/
+theorem tlsh_call_is_oneshot (lcap : Nat → Nat) (s : TlshO.State) (hc : s.cfg.valid = true) (data : List Nat) (force : Bool) :
+    (TlshO.step lcap s (.call data force)).2 = Lemmas.TlshCall.resOf (tlsh lcap s.cfg data force) :=
+  Lemmas.TlshCall.call_eq_tlsh lcap s hc data force
 
 /-- Nilsimsa: `obj(data)` on an object in ANY state (a dangling `update`, an `update` that stopped half way) returns the
     one-shot digest of `data` and leaves a new object -/
